@@ -51,7 +51,8 @@ type Engine struct {
 	ghostFlds map[string]*GhostDecl // "pkg.T.name"
 	axioms    []*Axiom
 
-	heapSorts map[string]string // heap name -> SMT sort (registry, global)
+	heapSorts map[string]string // heap name -> SMT sort (registry; reset to baseHeapSorts before every function so that a function's VCs do not depend on which functions were verified before it in the same process)
+	baseHeapSorts map[string]string
 	usorts    map[string]bool
 	ufuncs    map[string]string // uninterpreted function decls: name -> decl text
 
